@@ -140,7 +140,7 @@ Proof.
     unfold py_eq. rewrite eqd_seq, seq_norm; [|apply wf_seq in W; rewrite Forall_forall in *; intros; apply wf_good; auto|apply (wf_seq _ _ Wy)].
     simpl. rewrite seq_all2_all2. apply all2_ext. intros x y Hx Hy.
     rewrite Forall_forall in IH. apply wf_seq in W, Wy. rewrite Forall_forall in W, Wy.
-    simpl in B, By. apply IH; auto; eapply has_bool_elems; eauto.
+    simpl in B, By. apply IH; auto; [apply (has_bool_elems la x B Hx)|apply (has_bool_elems lb y By Hy)].
   - (* map *)
     destruct y as [| | | | | | |lb| |]; try (unfold py_eq; rewrite eqd_unfold; reflexivity).
     apply eq_true_iff_eq. fold (equals (VMap la) (VMap lb)).
@@ -165,7 +165,7 @@ Proof.
     unfold py_eq. rewrite eqd_rec, seq_norm; [|apply wf_rec in W; rewrite Forall_forall in *; intros; apply wf_good; auto|apply (wf_rec _ _ Wy)].
     simpl. f_equal. rewrite seq_all2_all2. apply all2_ext. intros x y Hx Hy.
     rewrite Forall_forall in IH. apply wf_rec in W, Wy. rewrite Forall_forall in W, Wy.
-    simpl in B, By. apply IH; auto; eapply has_bool_elems; eauto.
+    simpl in B, By. apply IH; auto; [apply (has_bool_elems la x B Hx)|apply (has_bool_elems lb y By Hy)].
   - (* set *)
     destruct y as [| | | | | | | | |lb]; try (unfold py_eq; rewrite eqd_unfold; reflexivity).
     apply eq_true_iff_eq.
@@ -175,7 +175,7 @@ Proof.
     destruct (wf_set _ W) as [WA _]. destruct (wf_set _ Wy) as [WB _].
     rewrite Forall_forall in IH. simpl in B, By.
     assert (EQ : forall x y, In x la -> In y lb -> py_eq x y = ref_eq x y).
-    { intros x y Hx Hy. apply IH; auto; eapply has_bool_elems; eauto. }
+    { intros x y Hx Hy. apply IH; auto; [apply (has_bool_elems la x B Hx)|apply (has_bool_elems lb y By Hy)]. }
     split; intros [L H]; (split; [exact L|]); intros x Hx; destruct (H x Hx) as [y [Hy E]];
       exists y; (split; [exact Hy|]).
     + rewrite <- (EQ x y Hx Hy). exact E.
